@@ -268,6 +268,12 @@ def _main(tier, replay):
                     v.violation(obj, has_input=False)
     if not gate["ok"]:
         v.violation({"kind": "proof", "theorem_or_file": gate["problems"], "what": "Coq obligations no longer check"}, has_input=False)
+    elif tier == "thorough":
+        # independent re-check of the compiled development
+        okc, outc = vlib.coqchk(["Verif.MemBuf.Props"])
+        cov["coqchk"] = "ok" if okc else outc[-300:]
+        if not okc:
+            v.violation({"kind": "proof", "theorem_or_file": "coqchk Verif.MemBuf.Props", "error": outc[-800:]}, has_input=False)
     evals = stats.get("ops", 0) + sum(pc.values())
     cov.update(evaluations=evals, distinct_nontrivial=stats.get("distinct_nontrivial", 0),
                rule="seeded random op sequences per class (small alphabet incl. the empty key and 0x00/0xFF; shared prefixes > 20 bytes and keys that are prefixes of others; fan-out 3..256 below one node; values crossing the 4K/8K/16K arena blocks; entry/buffer limits; checkpoint heavy; iteration bounds nil / empty non-nil / keys / neighbours; repeated no-op flag updates = F02 regression) + directed limit sequences (key 65535/65536 bytes); every mutator followed by observers; distinct_nontrivial = sequences with >= 4 mutators and >= 1 staging/checkpoint, distinct by their mutator list",
@@ -275,7 +281,17 @@ def _main(tier, replay):
                input_distribution={k: c for k, c in counts.items() if k.startswith("class:")},
                op_distribution={k: c for k, c in counts.items() if k.startswith("op:")},
                oracle_evaluations=pc, model_L1_mismatches=stats.get("mismatches", 0),
-               L0_divergences=stats.get("l0diffs", 0))
+               L0_divergences=stats.get("l0diffs", 0),
+               L2_structure_and_map_checks=stats.get("l2_checks", 0), L2_diffs=stats.get("l2_diffs", 0),
+               tree_shape_dumps_compared=counts.get("op:tree", 0))
+    # the thorough driver output is ~0.8 GB: do not leave it on the shared disk
+    try:
+        for f in os.listdir(rundir()):
+            fp = os.path.join(rundir(), f)
+            if f.endswith(".drv") and os.path.getsize(fp) > 200 * 1024 * 1024:
+                os.remove(fp)
+    except OSError:
+        pass
     rc = v.finish()
     vlib.write_evidence(PID, cov, t0, violations=len(v.violations), level="proof",
                         assumptions=["bytes are 0..255; Go's bytes.Compare = lex_cmp", "single-threaded use of the buffer (the RWMutex wrappers are not exercised concurrently)",
